@@ -2345,7 +2345,12 @@ impl Drop for DB {
         self.db_lock.take();
 
         #[cfg(feature = "verif")]
-        crate::verif::pause("close.lock_released", &[]);
+        {
+            // record whether a background round was still scheduled when the lock was released
+            let still_scheduled = self.guarded_fields.lock().background_compaction_scheduled;
+            crate::verif::note("close.lock_released", &[still_scheduled as u64]);
+            crate::verif::pause("close.lock_released", &[]);
+        }
 
         // Clean-up WAL pointer
         unsafe {
